@@ -49,6 +49,10 @@ struct IdPos {  // id = position at insertion time (identifiers reused after rem
   static unsigned id(unsigned) { return 0; }
   static const char* name() { return "pos"; }
 };
+struct IdMix {  // increasing along the filtration, irregular gaps, and identifiers of removed cells come back at other positions
+  static unsigned id(unsigned) { return 0; }
+  static const char* name() { return "mix"; }
+};
 struct IdGap {  // strictly increasing ids with gaps, not starting at 0
   static unsigned id(unsigned k) { return 3 * k + 2; }
   static const char* name() { return "gap"; }
@@ -150,9 +154,21 @@ struct PmModel {
         // middle was removed no such identifier exists any more
         for (std::size_t i = 0; i < cells.size(); ++i) if (cells[i].id >= cells.size()) { out["inapplicable"] = true; return out; }
       }
+      if constexpr (is_chain && Opt::has_vine_update) {
+        // documented precondition of insert_boundary: "all IDs have to be strictly increasing in the order of filtration".
+        // Identifiers of a chain matrix follow their cells, so after a vine swap the cells present are no longer in
+        // increasing identifier order and no further insertion is legal until they are again.
+        for (std::size_t i = 1; i < cells.size(); ++i) if (cells[i - 1].id >= cells[i].id) { out["inapplicable"] = true; return out; }
+      }
       Cell c;
       c.uid = next_uid++;
       if constexpr (std::is_same_v<Ids, IdPos>) { c.id = static_cast<unsigned>(cells.size()); ++next; }
+      else if constexpr (std::is_same_v<Ids, IdMix>) {
+        unsigned maxlive = 0;
+        for (auto& x : cells) maxlive = std::max(maxlive, x.id);
+        c.id = cells.empty() ? (next % 3) : maxlive + 1 + ((next * 7 + 3) % 4);   // only larger than the live identifiers
+        ++next;
+      }
       else c.id = Ids::id(next++);
       c.dim = static_cast<int>(act.at("d").to_number<std::int64_t>());
       std::vector<std::pair<unsigned, int>> arg;  // (row label, coefficient), increasing labels
